@@ -35,6 +35,12 @@ def main(argv=None):
             print('HARNESS-ERROR property=%s %s' % (pid, e))
             return 2
         vs = [v for v in vs if v.kind == doc.get('kind', v.kind)]
+        if not vs and doc.get('context'):
+            # the witness fails only after other cases (state carried inside the tool): re-run the exploration
+            run = report.Run(pid, doc['context'].get('tier', a.tier), seed)
+            mod.run(run, run.tier, seed)
+            want = report.Violation(doc['kind'], doc['case'], {}).key()
+            vs = [v for v in run.violations.values() if v.key() == want]
         if vs:
             for v in vs[:3]:
                 print('VIOLATION property=%s replay=%s' % (pid, a.replay))
